@@ -11,6 +11,10 @@ def run(chk):
         c09.activator_component(chk, sc)      # a TagActivator that does not hand a running handler to the trash step
         ecmc_design.design_for(chk, sc, "C08")
         runlevel.run_for(chk, "C08", sc)
+        # "no candidate survives in the scheduler" over a very long history: trashed candidates must never come back, whatever
+        # the scheduler does rarely (counter wrap-around, clean-up of lazily deleted entries)
+        from checks import longsched
+        longsched.run(chk, sc, "C08")
     # a dumped and resumed run must keep the property: trashed candidates may not come back to life
     from checks import c19
-    c19.dump_resume(chk, [c19.PLAN_8_ATOMS] if chk.tier == "quick" else [c19.PLANS["thorough"][0], c19.PLANS["thorough"][-2], c19.PLANS["thorough"][2]], {"C08"})
+    c19.dump_resume(chk, [c19.PLAN_8_ATOMS] if chk.tier == "quick" else [c19.PLAN_8_ATOMS, dict(c19.PLAN_CROWDED_CELLS, end="9", dumps=None), c19.PLANS["thorough"][-5]], {"C08"})
